@@ -173,13 +173,13 @@ Definition run (fields : list str) : list str :=
         match take_ws args with Some w => [ws_to_string w] | None => BAD end
       else if tag_is tag T_SWIRE then
         match take_ws args with
-        | Some w => [suppr_to_wire w; str_of_bool (ws_ok sid w);
-                     str_of_bool (match suppr_of_wire sid (suppr_to_wire w) with Ok _ => true | Err _ => false end)]
+        | Some w => [suppr_to_wire w; str_of_bool (ws_ok Supp.Run.simp w);
+                     str_of_bool (match suppr_of_wire Supp.Run.simp (suppr_to_wire w) with Ok _ => true | Err _ => false end)]
         | None => BAD
         end
       else if tag_is tag T_SREAD then
         match args with
-        | [buf] => match suppr_of_wire sid buf with
+        | [buf] => match suppr_of_wire Supp.Run.simp buf with
                    | Ok w => [111; 107] :: ws_out w
                    | Err e => [[69]; dec_of_N e]
                    end
